@@ -26,3 +26,28 @@ Print Assumptions C04_no_bursts_no_som.
 Theorem C04_lone_burst_no_som : forall b h, ~ justified_som [b] h.
 Proof. exact one_burst_no_som. Qed.
 Print Assumptions C04_lone_burst_no_som.
+
+(** EVERY successfully decoded message event — EndOfMessage included — of every step from a state
+    satisfying the invariant (every reachable state does: C04_no_som_without_evidence's induction)
+    is what [combine] makes of at most three consecutive bursts reported so far, or it is the
+    forced EndOfMessage of an armed timer whose deadline has passed (C09: armed only by a
+    StartOfMessage event, 135 s ahead) *)
+Theorem C04_every_message_event_is_justified : forall c k log i k' evs,
+  max_prefix_bit_errors (fc c) <= 7 ->
+  CInv k log -> step_core c k i = (k', evs) ->
+  CInv k' (log ++ bursts_of evs)
+  /\ (forall e m, In e evs -> ev_what e = WTransport (TMessage (Ok m)) -> msg_justified k (log ++ bursts_of evs) m).
+Proof.
+  intros c k log i k' evs Hb Hi E.
+  destruct (step_core_justified_gen c k log i k' evs Hb Hi E) as (A & _ & B). split; assumption.
+Qed.
+Print Assumptions C04_every_message_event_is_justified.
+
+(** an EndOfMessage that [combine] produces comes from bursts voting to "NN": the estimate of the
+    window starts with "NN" (by definition of combine: message_prefix_is_eom or the NN prefix
+    dispatch) — one, two or three bursts that all start "NN" always do *)
+From Sameold Require Proofs.AssemblerP.
+Theorem C04_nn_bursts_give_eom : forall bs,
+  (1 <= length bs <= 3)%nat -> Forall AssemblerP.starts_NN bs -> combine bs = Some (Ok EOM).
+Proof. exact AssemblerP.combine_NN. Qed.
+Print Assumptions C04_nn_bursts_give_eom.
